@@ -28,9 +28,12 @@ def main():
     sd = Path(sys.argv[1]).resolve()
     suite = "--no-suite" not in sys.argv
     tier = sys.argv[sys.argv.index("--tier") + 1] if "--tier" in sys.argv else "quick"
-    meta = json.loads((sd / "meta.json").read_text())
-    pid = meta["property"]
-    tag = f"{sd.parent.name}_{sd.name}"
+    meta = json.loads((sd / "meta.json").read_text()) if (sd / "meta.json").exists() else {}
+    pid = meta.get("property") or re.search(r"seed_(C\d\d)", str(sd)).group(1)
+    labelled = pid
+    if "--check" in sys.argv:
+        pid = sys.argv[sys.argv.index("--check") + 1]
+    tag = f"{sd.parent.name}_{sd.name}" + ("_" + sys.argv[sys.argv.index("--check") + 1] if "--check" in sys.argv else "")
     wt = Path(f"/tmp/sc_{tag}")
     res = {"seed": str(sd), "property": pid, "started": time.strftime("%F %T")}
     subprocess.run(["git", "-C", "/repo", "worktree", "remove", "--force", str(wt)], capture_output=True)
@@ -89,7 +92,7 @@ def main():
                 res["check"]["replay_excerpt"] = rp.read_text()[:1500]
         return res
     finally:
-        (sd / "confirm.json").write_text(json.dumps(res, indent=1))
+        (sd / (("confirm" if suite else "confirm_nosuite") + ("" if pid == labelled else "_" + pid) + ".json")).write_text(json.dumps(res, indent=1))
         subprocess.run(["git", "-C", "/repo", "worktree", "remove", "--force", str(wt)], capture_output=True)
         import hashlib, shutil
         alt = VERIF / "build" / "alt" / hashlib.sha1(str(wt).encode()).hexdigest()[:10]
